@@ -14,6 +14,7 @@ pub fn block() -> impl Strategy<Value = Vec<HOp>> {
         8 => work_block(gen::edit_r1()),
         3 => fork_block(gen::edit_r1()),
         8 => diverge_block(gen::edit_r1()),
+        9 => rewrite_scenario_block(gen::edit_r1()),
         4 => stash_block(gen::edit_r1()),
         3 => ai_edit_op().prop_map(|o| vec![o]),
         2 => (0u8..4, any::<bool>()).prop_map(|(branch, use_checkout)| vec![HOp::Switch { branch, use_checkout }]),
@@ -25,7 +26,7 @@ pub fn block() -> impl Strategy<Value = Vec<HOp>> {
 pub fn strategy() -> impl Strategy<Value = Case> {
     (proptest::collection::vec(file_init(1, 8), 1..=2), proptest::collection::vec(block(), 2..=8)).prop_map(|(files, blocks)| {
         let mut ops: Vec<HOp> = blocks.into_iter().flatten().collect();
-        ops.truncate(24);
+        ops.truncate(30);
         HCase { files, ops }
     })
 }
@@ -37,6 +38,7 @@ pub fn run(case: &Case) -> CaseReport {
     e.run_ops(&case.ops, &mut rep);
     // whatever is still pending is committed at the end so that carried work is observed
     e.run_ops(&[HOp::Commit], &mut rep);
+    e.finish_taint(&mut rep);
     rep.nontrivial = e.preserving_ops_with_ai >= 1 && e.known_commits.len() >= 3;
     if e.preserving_ops_with_ai >= 2 {
         rep.class("composition>=2");
